@@ -17,7 +17,9 @@ def make_names(rng, n):
     if style == 'plain':
         return ['seq%d' % (i + 1) for i in range(n)]
     if style == 'prefix':
-        return ['s' + 'a' * i for i in range(n)]
+        # names that are prefixes of each other; kept distinct within the first 256 bytes (kalign compares no more of a name, and
+        # C03 speaks about records that can be told apart)
+        return ['s' + 'a' * (i % 240) + ('' if i < 240 else '_%d' % (i // 240)) for i in range(n)]
     if style == 'punct':
         return ['%s|%d_%d' % (rng.choice(['sp', 'tr']), rng.below(1000), i) for i in range(n)]
     if style == 'hibyte':
